@@ -39,6 +39,23 @@ func (e *labEP) goDown() {
 	}
 }
 
+// hangUp: the endpoint closes, in an orderly way (FIN), every connection it has
+// accepted so far and keeps listening - a peer that ends idle connections.
+func (e *labEP) hangUp() int {
+	e.mu.Lock()
+	accs := e.accs
+	e.accs = nil
+	e.mu.Unlock()
+	n := 0
+	for _, c := range accs {
+		if !c.isDead() {
+			n++
+		}
+		c.conn.Close()
+	}
+	return n
+}
+
 // goDownUDP: the UDP endpoint closes its socket (datagrams to it are answered
 // with ICMP port unreachable from now on).
 func (e *labEP) goDownUDP() {
